@@ -305,7 +305,7 @@ def primary(run, ds):
 
 
 MC_PROPS = {"C01": ["WellFormedState", "WellFormedCallbacks"], "C02": ["P_Prescribed"], "C12": ["P_Prescribed"], "C08": ["RoundTrip", "P_Load", "P_SaveUntouched"], "C03": ["P_Balanced"],
-            "C04": ["P_Guards"], "C05": ["P_Delivery"]}
+            "C04": ["P_Guards"], "C05": ["P_Delivery"], "C09": ["P_Replay"], "C13": ["ResumeNamed"]}
 
 
 class Outcome:
